@@ -193,7 +193,24 @@ func c11Judge(cs *core.Case, kinds []int) {
 			lead = v.SSRC
 		}
 		mode := r.Intn(3)
-		for _, m := range cp {
+		for i, m := range cp {
+			// the receiver reports that follow the leading report come from the same sender (a report
+			// on more than 31 sources is split this way), and the leading report is full
+			if rr, ok := m.(*rtcp.ReceiverReport); ok && i > 0 && len(rr.Reports) <= 31 {
+				rr.SSRC = lead
+			}
+			if i == 0 && r.Bool() {
+				switch v := m.(type) {
+				case *rtcp.SenderReport:
+					for len(v.Reports) < 31 {
+						v.Reports = append(v.Reports, gen.Report(r))
+					}
+				case *rtcp.ReceiverReport:
+					for len(v.Reports) < 31 {
+						v.Reports = append(v.Reports, gen.Report(r))
+					}
+				}
+			}
 			if s, ok := m.(*rtcp.SourceDescription); ok {
 				for i := range s.Chunks {
 					if mode == 2 || (mode == 0 && i == len(s.Chunks)-1) || (mode == 1 && i == 0) {
